@@ -61,3 +61,18 @@ def riskOp (op : String) (a : List Int) : Option String :=
       | _ => "bad-args")
   | _, _ => none
 end Mfi.Driver
+
+namespace Mfi.Driver
+open Mfi Mfi.Risk
+
+def liqOp (op : String) (a : List Int) : Option String :=
+  match op, a with
+  | "liq.amounts", [amt, ap, lp, da, dl] =>
+    some (match liquidationAmounts amt ap lp da dl with
+      | .ok r => s!"ok {r.liquidator} {r.final} {r.feeWhole} {r.feeFrac}"
+      | .error f => Res.showFail f)
+  | "liq.value", [amount, price, d, w] =>
+    some (showResI (calcValue amount price d (if w < 0 then none else some w)))
+  | "liq.amount", [value, price, d] => some (showResI (calcAmount value price d))
+  | _, _ => none
+end Mfi.Driver
